@@ -68,6 +68,10 @@ CHECKS = {
          'Bounded exhaustive verification (enumerative mode): every formula of <=2 (thorough 3) rows from the menus x label formats x flags renders to text that the independent readers map back to exactly the in-memory rows; page splits and format guessing checked on their finite tables.',
          'Trusted: the two readers written for the check; CrossHair accounting. Outside: >3 terms, TeX validity of exotic names.',
          'DESIGN.md section 3 C12'),
+ 'C14': ('CrossHair/z3-accounted exhaustive walk of small graphs (edge bits) through every writer/reader pair, and of menu-built texts through the three in-house readers against independent reference readers',
+         'Bounded exhaustive verification (enumerative mode): all graphs of the stated sizes round-trip in all supported formats incl. 12-13 vertex graphs; every text of <=3 (thorough 4) menu lines per format and graph type is read as the reference reads it or rejected with ValueError.',
+         'Trusted: reference readers, networkx/pydot for gml/dot parsing, CrossHair accounting. Outside: arbitrary gml/dot text, texts beyond the menus.',
+         'DESIGN.md section 3 C14'),
 }
 NA = {}
 
